@@ -34,6 +34,8 @@ struct Rl {
     /// refresh period and timeout are multiplied by this, and so is the explorer's time grid:
     /// 1 (period 40 ms), or 101 for the seconds-range configurations (period 4.04 s)
     scale: u64,
+    /// every caller goes through the one original handle instead of a clone of its own
+    single_handle: bool,
 }
 
 struct X {
@@ -94,10 +96,16 @@ fn cut_exists(a: &[u64], limit: usize, period: u64) -> bool {
     go(a, 0, i64::MIN / 2, limit, period, &mut memo)
 }
 
-fn do_arrive(w: &mut World, svc: &Svc, c: usize) {
-    let mut s = svc.clone();
+fn do_arrive(w: &mut World, svc: &mut Svc, c: usize, single_handle: bool) {
+    let mut own;
+    let s: &mut Svc = if single_handle {
+        svc
+    } else {
+        own = svc.clone();
+        &mut own
+    };
     let req = Req::new(c as u32, 0);
-    match drive_ready::<_, Req>(&mut s, 4) {
+    match drive_ready::<_, Req>(s, 4) {
         Ok(Ok(())) => {}
         _ => panic!("ratelimiter poll_ready not ready"),
     }
@@ -139,7 +147,7 @@ impl Scenario for Rl {
         self.prop
     }
     fn label(&self) -> String {
-        format!("ratelimiter window={} limit={} period={}ms timeout={}ms callers={}{}", wname(self.window), self.limit, self.period(), self.timeout_ms(), self.callers, if self.late_ticks > 0 { " late-polls" } else if self.depth.is_some() { " long-run" } else { "" })
+        format!("ratelimiter window={} limit={} period={}ms timeout={}ms callers={}{}", wname(self.window), self.limit, self.period(), self.timeout_ms(), self.callers, if self.late_ticks > 0 { " late-polls" } else if self.depth.is_some() { " long-run" } else if self.single_handle { " one-handle" } else { "" })
     }
     fn callers(&self) -> usize {
         self.callers
@@ -163,7 +171,7 @@ impl Scenario for Rl {
         X { svc: layer.layer(GatedInner::new(w.inner.clone())), pre: None }
     }
     fn arrive(&self, w: &mut World, x: &mut X, c: usize, _v: u8) {
-        do_arrive(w, &x.svc, c);
+        do_arrive(w, &mut x.svc, c, self.single_handle);
     }
     fn allow(&self, _w: &World, _x: &X, h: &[Action], a: &Action) -> bool {
         let c = Counts::of(h);
@@ -357,7 +365,7 @@ impl Scenario for Rl {
                 let c = w.add_caller();
                 debug_assert_eq!(c, base + i);
                 w.begin_step();
-                do_arrive(w, &x.svc, c);
+                do_arrive(w, &mut x.svc, c, self.single_handle);
                 w.poll_caller(c);
                 ok.push(has_inner(w, c));
             }
@@ -385,29 +393,31 @@ fn configs(prop: &'static str, tier: Tier) -> Vec<Rl> {
                     Tier::Quick => limit + 2,
                     Tier::Thorough => 4,
                 };
-                v.push(Rl { prop, window, limit, timeout, callers, max_ticks: tier.pick(9, 12), max_drops: tier.pick(1, 2), late_ticks: 0, depth: None, scale: 1 });
+                v.push(Rl { prop, window, limit, timeout, callers, max_ticks: tier.pick(9, 12), max_drops: tier.pick(1, 2), late_ticks: 0, depth: None, scale: 1, single_handle: false });
             }
         }
         // a long, drop-free run over more than two periods with limit 2 (quick tier: the
         // general configurations stop at 9 ticks): bucket bookkeeping that drifts with the
         // instants of the calls shows only after a call in the middle of the second period
         if tier == Tier::Quick && window == WindowType::SlidingCounter {
-            v.push(Rl { prop, window, limit: 2, timeout: 10, callers: 4, max_ticks: 11, max_drops: 0, late_ticks: 0, depth: Some(18), scale: 1 });
+            v.push(Rl { prop, window, limit: 2, timeout: 10, callers: 4, max_ticks: 11, max_drops: 0, late_ticks: 0, depth: Some(18), scale: 1, single_handle: false });
         }
         // thorough: every window type over four and a half periods, three callers, no drops
         if tier == Tier::Thorough {
             for (limit, timeout) in [(1usize, 10u64), (2, 10), (1, 40), (2, 40)] {
-                v.push(Rl { prop, window, limit, timeout, callers: 3, max_ticks: 18, max_drops: 0, late_ticks: 0, depth: Some(26), scale: 1 });
+                v.push(Rl { prop, window, limit, timeout, callers: 3, max_ticks: 18, max_drops: 0, late_ticks: 0, depth: Some(26), scale: 1, single_handle: false });
             }
         }
         // everything in the seconds range: period 4.04 s, timeouts 1.01 s and 6.06 s, on a 1.01 s grid
         for timeout in [10u64, 60] {
-            v.push(Rl { prop, window, limit: 1, timeout, callers: 3, max_ticks: tier.pick(9, 12), max_drops: 1, late_ticks: 0, depth: None, scale: 101 });
+            v.push(Rl { prop, window, limit: 1, timeout, callers: 3, max_ticks: tier.pick(9, 12), max_drops: 1, late_ticks: 0, depth: None, scale: 101, single_handle: false });
         }
+        // all callers through the one original handle
+        v.push(Rl { prop, window, limit: 1, timeout: 40, callers: 3, max_ticks: tier.pick(6, 9), max_drops: 1, late_ticks: 0, depth: None, scale: 1, single_handle: true });
         // a late executor: waiters woken for the next window are polled up to two ticks late
         // (the decided-within-timeout clause presupposes prompt polling and is not judged here)
         for timeout in tier.pick(vec![100u64], vec![40, 100]) {
-            v.push(Rl { prop, window, limit: 1, timeout, callers: 3, max_ticks: tier.pick(8, 10), max_drops: tier.pick(0, 1), late_ticks: 2, depth: None, scale: 1 });
+            v.push(Rl { prop, window, limit: 1, timeout, callers: 3, max_ticks: tier.pick(8, 10), max_drops: tier.pick(0, 1), late_ticks: 2, depth: None, scale: 1, single_handle: false });
         }
     }
     v
